@@ -6,7 +6,7 @@ from ..core import cbool, clist, copt, cpair, cstr
 from ._base import *  # noqa
 from ._base import exn_code, COMMON_TB
 
-CASES_PER_FILE = 200
+CASES_PER_FILE = 120
 SERVES = ["C10", "C02", "C20"]
 COQ_TARGETS = ["theories/Corr/DagCorr.vo"]
 MOD = "harness.engines.dag"
@@ -252,8 +252,25 @@ def _clinks(l):
     return clist(cpair(_ids(ps), _ids(cs)) for ps, cs in l)
 
 
+def _decode(deltas):
+    prev, out = [], []
+    for n, delta, code in deltas:
+        d = {i: [ps, cs] for i, ps, cs in delta}
+        prev = [d[x] if x in d else (prev[x] if x < len(prev) else [[], []]) for x in range(n)]
+        out.append([prev, code])
+    return out
+
+
 def _ctrace(tr):
-    return clist(cpair(_clinks(l), str(int(code))) for l, code in tr)
+    """delta encoding of the observed trace (decoded again by Corr/DagCorr.v decode_obs)"""
+    prev, deltas = [], []
+    for l, code in tr:
+        delta = [(i, ps, cs) for i, (ps, cs) in enumerate(l)
+                 if [ps, cs] != (prev[i] if i < len(prev) else [[], []])]
+        deltas.append((len(l), delta, int(code)))
+        prev = l
+    assert _decode(deltas) == [[[[list(ps), list(cs)] for ps, cs in l], int(code)] for l, code in tr], "delta encoding"
+    return clist(f"({n}, {clist(f'({i}, ({_ids(ps)}, {_ids(cs)}))' for i, ps, cs in d)}, {code})" for n, d, code in deltas)
 
 
 def emit(prop, case, obs):
@@ -752,6 +769,8 @@ def corpus(prop):
 
 def generate(prop, rng, tier):
     count = {"quick": 1500, "thorough": 15000, "search": 4500}[tier]
+    if prop == "C20":          # two traces per case
+        count = count * 2 // 3
     fr = {"C10": 0.08, "C02": 0.4, "C20": 0.0}[prop]
     ir = {"C10": 0.22, "C02": 0.25, "C20": 0.0}[prop]
     if tier == "thorough":
